@@ -697,6 +697,7 @@ func (sw *stampWriter) Flush() error {
 	w.mu.Unlock()
 	err := sw.SubscriptionResponseWriter.Flush()
 	w.mu.Lock()
+	w.dropStamps(e.id, e.k)
 	w.log(Event{Ev: "engdone", ID: e.id, K: e.k})
 	w.mu.Unlock()
 	return err
@@ -704,11 +705,27 @@ func (sw *stampWriter) Flush() error {
 
 type lenner interface{ Len() int }
 
+// dropStamps forgets announcements of data messages of incarnation k that the engine did not write after all
+// (e.g. because the operation had been stopped). caller holds w.mu.
+func (w *world) dropStamps(id string, k int) {
+	if !w.v2 {
+		return
+	}
+	st := w.stamps[id][:0]
+	for _, x := range w.stamps[id] {
+		if x[0] != k {
+			st = append(st, x)
+		}
+	}
+	w.stamps[id] = st
+}
+
 func (e *v2exec) Execute(writer resolve.SubscriptionResponseWriter) error {
 	w := e.w
 	w.mu.Lock()
 	if e.pendingDone {
 		e.pendingDone = false
+		w.dropStamps(e.id, e.k)
 		w.log(Event{Ev: "engdone", ID: e.id, K: e.k})
 	}
 	e.execCalls++
@@ -802,6 +819,7 @@ func (p *v2pool) Put(x subscription.Executor) error {
 	w.mu.Lock()
 	if e.pendingDone {
 		e.pendingDone = false
+		w.dropStamps(e.id, e.k)
 		w.log(Event{Ev: "engdone", ID: e.id, K: e.k})
 	}
 	e.put = true
